@@ -384,7 +384,10 @@ class Workdir:
 
                         def damaged(raw):
                             return {"truncate": raw[: len(raw) // 2], "garbage": b"\x00junk", "empty": b"", "tail": raw[:-1] + b"X",
-                                    "wrongtype": pickle.dumps(["not", "what", "was", "stored"])}[op["mode"]]
+                                    "wrongtype": pickle.dumps(["not", "what", "was", "stored"]),
+                                    # the right shape (a pair) holding the wrong things
+                                    "wrongpair": pickle.dumps(("not a page", [])),
+                                    "wrongdiags": pickle.dumps((None, ["not a diagnostic"]))}[op["mode"]]
                         where = op.get("where", "pages")
                         if where == "yaml":
                             # the pickled GizaFile of single YAML files
@@ -405,7 +408,16 @@ class Workdir:
                     except Exception:
                         pass
                 return
+            if how == "directory":
+                # something that is not a readable file sits where the cache file is expected
+                for f in files:
+                    if f.is_file():
+                        f.unlink()
+                        f.mkdir()
+                return
             for f in files:
+                if not f.is_file():
+                    continue
                 data = f.read_bytes()
                 if how == "truncate":
                     data = data[: int(len(data) * op["at"])]
@@ -425,7 +437,10 @@ class Workdir:
     def cached_vs_clean(self):
         cached = build(self.root, load=True)
         for f in cache_files(self.root):
-            f.unlink()
+            if f.is_dir():
+                shutil.rmtree(f)
+            else:
+                f.unlink()
         clean = build(self.root, load=False)
         return cached, clean
 
@@ -699,10 +714,10 @@ class C11(core.PropertyCheck):
             cfg.clear(), cfg.update(c)
             return {"op": "write", "path": "snooty.toml", "text": render_toml(c)}
         if r < 0.22:
-            how = rng.choice(["truncate", "overwrite", "flipbit", "garbage", "rename", "rename", "entry", "entry"])
+            how = rng.choice(["truncate", "overwrite", "flipbit", "garbage", "rename", "rename", "entry", "entry", "entry", "directory"])
             op = {"op": "cache", "how": how}
             if how == "entry":
-                op.update(which=rng.choice(["all", 0, 1, 2, 3]), mode=rng.choice(["truncate", "garbage", "empty", "tail", "wrongtype"]),
+                op.update(which=rng.choice(["all", 0, 1, 2, 3]), mode=rng.choice(["truncate", "garbage", "empty", "tail", "wrongtype", "wrongpair", "wrongpair", "wrongdiags"]),
                           where=rng.choice(["pages", "pages", "yaml", "yaml", "orphans"]))
             if how == "truncate":
                 op["at"] = rng.choice([0.0, 0.01, 0.5, 0.9, 0.99, rng.random()])
